@@ -160,8 +160,8 @@ Proof.
   assert (Hnd' : NoDup (keys ms')).
   { unfold keys. eapply Permutation_NoDup; [apply Permutation_map; exact Hp | exact Hnd]. }
   rewrite !dec_call_spec by assumption. unfold spec_call.
-  rewrite <- (existsb_perm (fun m : member => needs_escape (fst m)) ms ms' Hp).
-  destruct (existsb (fun m : member => needs_escape (fst m)) ms); [reflexivity |]. cbn [map_capable].
+  rewrite <- (existsb_perm (fun m : (string * jval)%type => needs_escape (fst m)) ms ms' Hp).
+  destruct (existsb (fun m : (string * jval)%type => needs_escape (fst m)) ms); [reflexivity |]. cbn [map_capable].
   unfold spec_flag. rewrite <- !(lookup_perm _ _ _ Hnd Hp).
   rewrite !decoder_adj.
   rewrite (adj_map_perm Direct tag content vs (filter (fun m => negb (is_flag (fst m))) ms)
@@ -179,8 +179,8 @@ Proof.
   assert (Hnd' : NoDup (keys ms')).
   { unfold keys. eapply Permutation_NoDup; [apply Permutation_map; exact Hp | exact Hnd]. }
   rewrite !dec_call_spec by assumption. unfold spec_call.
-  rewrite <- (existsb_perm (fun m : member => needs_escape (fst m)) ms ms' Hp).
-  destruct (existsb (fun m : member => needs_escape (fst m)) ms); [reflexivity |]. cbn [map_capable].
+  rewrite <- (existsb_perm (fun m : (string * jval)%type => needs_escape (fst m)) ms ms' Hp).
+  destruct (existsb (fun m : (string * jval)%type => needs_escape (fst m)) ms); [reflexivity |]. cbn [map_capable].
   unfold spec_flag. rewrite <- !(lookup_perm _ _ _ Hnd Hp).
   rewrite !decoder_struct.
   rewrite (struct_map_perm Direct (ftable fs) (filter (fun m => negb (is_flag (fst m))) ms)
@@ -192,7 +192,7 @@ Qed.
 (* A variant without fields whose content is read leniently (what the ReplyError derive and
    varlink_service::Method now generate) is recognised whether the content member is absent, null
    or an object - in any member order, next to any other members, under any deserializer. *)
-Theorem no_parameters_spellings : forall m tag content vs ms n i fs,
+Theorem no_parameters_spellings : forall m tag content (vs : variants) ms n i (fs : fields),
   tag <> content -> NoDup (keys ms) ->
   lookup tag ms = Some (JStr n) ->
   index_of n (map (fun v => fst (fst v)) vs) = Some i ->
@@ -203,7 +203,8 @@ Theorem no_parameters_spellings : forall m tag content vs ms n i fs,
 Proof.
   intros m tag content vs ms n i fs Hne Hnd Ht Hi Hn Hc.
   rewrite decoder_adj, adj_map_lookup by assumption. unfold adj_lookup.
-  rewrite Ht. cbn [dec_tag]. rewrite vnames_vtable, Hi.
+  assert (Hidx : index_of n (vnames (vtable vs)) = Some i) by (rewrite vnames_vtable; exact Hi).
+  rewrite Ht. cbn [dec_tag]. rewrite Hidx.
   assert (Hv : variant_at (vtable vs) i = Some (KLenient, ftable fs)).
   { unfold variant_at, vtable. rewrite nth_error_map, Hn. reflexivity. }
   unfold missing_content_at, dec_variant_at. rewrite Hv.
@@ -267,7 +268,7 @@ Qed.
 (* An error enum using the ReplyError derive encodes as {"error": "<interface>.<Variant>"} plus,
    exactly when the variant has fields, a `parameters` object holding them under their wire names
    in declaration order. *)
-Theorem error_shape : forall iface vs i vn k fs rs,
+Theorem error_shape : forall iface (vs : variants) i vn k (fs : fields) rs,
   nth_error vs i = Some (vn, k, fs) ->
   enc_error (err_shape iface vs) (RVar i rs) =
   match k with
